@@ -156,7 +156,7 @@ func (tf *TarsFile) FindTNameType(tName string) (token.Type, string, string) {
 	return token.Name, tf.Module.Name, tf.ProtoName
 }
 
-func (tf *TarsFile) FindEnumName(ename string, moduleCycle bool) (*EnumMember, *Enum, error) {
+func (tf *TarsFile) FindEnumName(ename string, moduleCycle bool, moduleUpper bool) (*EnumMember, *Enum, error) {
 	if strings.Contains(ename, "::") {
 		vec := strings.Split(ename, "::")
 		if len(vec) >= 2 {
@@ -181,7 +181,7 @@ func (tf *TarsFile) FindEnumName(ename string, moduleCycle bool) (*EnumMember, *
 	var err error
 	for _, tarsFile := range tf.IncTarsFile {
 		if cmb == nil {
-			cmb, cenum, err = tarsFile.FindEnumName(ename, moduleCycle)
+			cmb, cenum, err = tarsFile.FindEnumName(ename, moduleCycle, moduleUpper)
 			if err != nil {
 				return cmb, cenum, err
 			}
@@ -190,10 +190,18 @@ func (tf *TarsFile) FindEnumName(ename string, moduleCycle bool) (*EnumMember, *
 		}
 	}
 	if cenum != nil && cenum.Module == "" {
+		// the qualifier the generated code uses for the enum's package (as genType / the import alias spell it)
+		modName := tf.Module.Name
+		if moduleUpper {
+			modName = utils.UpperFirstLetter(modName)
+		}
 		if moduleCycle {
-			cenum.Module = tf.ProtoName + "_" + tf.Module.Name
+			cenum.Module = tf.ProtoName + "_" + modName
+			if moduleUpper {
+				cenum.Module = utils.UpperFirstLetter(cenum.Module)
+			}
 		} else {
-			cenum.Module = tf.Module.Name
+			cenum.Module = modName
 		}
 	}
 	return cmb, cenum, nil
